@@ -36,6 +36,15 @@ type Index struct {
 	Unmapped   *uint64
 	IsSorted   bool
 	LastRecord int
+
+	// zero notes the tiles whose offset is the virtual offset
+	// zero because a record starts there (the first record of
+	// a file without a header), not because they are unset.
+	zero struct {
+		set        bool
+		ref        int
+		first, end int
+	}
 }
 
 // RefIndex is the index of a single reference.
@@ -140,9 +149,12 @@ found:
 		ref.Intervals = intvs
 	}
 	for iv := biv; iv <= eiv; iv++ {
-		if isZero(ref.Intervals[iv]) {
+		if isZero(ref.Intervals[iv]) && !(i.zero.set && i.zero.ref == rid && i.zero.first <= iv && iv < i.zero.end) {
 			ref.Intervals[iv] = c.Begin
 		}
+	}
+	if isZero(c.Begin) && !i.zero.set {
+		i.zero.set, i.zero.ref, i.zero.first, i.zero.end = true, rid, biv, eiv+1
 	}
 
 	// Record index stats.
